@@ -1,7 +1,20 @@
 import WcModel.Properties.C10
+import WcModel.Properties.C10cls
+import WcModel.Properties.C10wf
 #print axioms WcModel.C10.root_error_only_noabs
 #print axioms WcModel.C10.root_ok
 #print axioms WcModel.C10.parse_ok_of_not_noabs
 #print axioms WcModel.C10.noabs_witness
 #print axioms WcModel.C10.D9_fixed_witness
 #print axioms WcModel.C10.matcher_decides
+#print axioms WcModel.C10cls.sequence_clsWF
+#print axioms WcModel.C10cls.seqLoop_base_kept
+#print axioms WcModel.C10cls.D29_fixed_witness
+#print axioms WcModel.C10cls.D29_before
+#print axioms WcModel.C10cls.hseq
+#print axioms WcModel.C10cls.parse_clsWF
+#print axioms WcModel.C10cls.parse_clsWF_winDrive
+#print axioms WcModel.C10cls.noDrive_ok
+#print axioms WcModel.C10.parse_wellformed
+#print axioms WcModel.C10.every_string_compiles
+#print axioms WcModel.C10.every_string_compiles_of_not_noabs
